@@ -179,7 +179,9 @@ class NetSystem(object):
                        broadcasts a Who-Is-Router-To-Network without a network number."""
     LATE = ("late", "lcall", "lask")
 
-    def __init__(self, topo, cache="warm", know="K", reply="now", tables=None, learned=None, record=False):
+    def __init__(self, topo, cache="warm", know="K", reply="now", tables=None, learned=None, record=False, lossy=None):
+        """lossy: None (every frame put on a LAN is delivered) or the cost of choosing another LAN than the one with
+        the globally oldest frame; then the environment may also *lose* an I-Am-Router-To-Network frame (cost 1)."""
         vclock.reset(0.0)
         self.topo = topo
         self.cache = cache
@@ -200,6 +202,8 @@ class NetSystem(object):
         self.trace = []
         self.horizon_hit = False
         self.livelock = False
+        self.lossy = lossy
+        self.dropped = []           # serials of the frames the environment lost
         # learned: what RecordingCache logged in an announced run of this very configuration; given that, the
         # announcements are not repeated and the tables are filled by the same calls in the same order
         self.learned = learned
@@ -358,17 +362,33 @@ class NetSystem(object):
             if fr.net.name in seen:
                 continue
             seen.add(fr.net.name)
-            m.append(("dlv:%s" % fr.net.name, 0 if not m else 1))
+            m.append(("dlv:%s" % fr.net.name, 0 if not m else (1 if self.lossy is None else self.lossy)))
+        if self.lossy is not None and m and self._is_iam_router(self.wire.inflight[0]):
+            # a lossy environment: the announcement never arrives (nobody repeats it).  Offered when the frame is the
+            # globally oldest one: every frame is that at some time unless it was delivered ahead of its turn, and
+            # when a frame is lost makes no difference to anybody
+            m.append(("drop:%s" % self.wire.inflight[0].net.name, 1))
         return m
 
+    @staticmethod
+    def _is_iam_router(fr):
+        try:
+            return ssmwire.parse_npdu(fr.data).get("netmsg") == 1
+        except ssmwire.WireError:
+            return False
+
     def apply(self, label):
-        name = label[4:]
+        name = label[5:] if label.startswith("drop:") else label[4:]
         for i, fr in enumerate(self.wire.inflight):
             if fr.net.name == name:
                 break
         else:
             raise ValueError(label)
         self.trace.append(label)
+        if label.startswith("drop:"):
+            self.wire.drop(i)
+            self.dropped.append(fr.serial)
+            return
         self._mark()
         self.current = fr.serial
         self.order.append(fr.serial)
@@ -416,7 +436,8 @@ class NetSystem(object):
         return list(vclock.swallowed) + [("wire", e) for e in self.wire.errors] + [("driver", e) for e in self.errors]
 
     def observation(self):
-        return (self.deliveries, self.wire.log, self.trace, self.order, sorted(self.parent.items()), self.swallowed(), self.tables_now())
+        return (self.deliveries, self.wire.log, self.trace, self.order, sorted(self.parent.items()), self.swallowed(), self.tables_now(),
+                tuple(self.dropped))
 
 
 def run_execution(make, choices, max_steps, want_states=None, salt=None):
